@@ -169,9 +169,9 @@ impl Check for C05 {
         let q = run.tier.quick();
         run.rule("every history of push_clip_rect / push_clip / pop_clip / set_transform calls up to the depth bound (pops enabled only on a non-empty stack) is executed on a fresh target; after each the implementation's effective clip (hook) is compared with the model stack's intersection / coverage product, and each of 11 probe draws is checked pixel by pixel by the step oracle under the model's clip; non-trivial = a clip path with partial coverage is on the stack at probe time");
         run.assume("a path's coverage is the alpha of an opaque-white antialiased fill of it on a fresh target under the transform in force at push time (validated by C01/C08)");
-        let surfaces: Vec<(i32, i32)> = if q { vec![(4, 4)] } else { vec![(4, 4), (6, 5)] };
-        let depth = if q { 3 } else { 4 };
+        let surfaces: Vec<(i32, i32)> = vec![(4, 4), (6, 5)];
         for (w, h) in surfaces {
+            let depth = if q { 4 } else if w == 4 { 5 } else { 4 };
             let alpha = stack_alphabet(w, h);
             let pr = probes(w, h);
             let na = alpha.len();
